@@ -304,16 +304,23 @@ func trimErrorCodePrefix(err error, httpStatus int, errorCode string) string {
 	buf := make([]byte, 0, 128)
 	if httpStatus != 0 {
 		buf = appendHTTPStatusPrefix(buf, httpStatus)
-		buf = append(buf, ": "...)
-		msg = strings.TrimPrefix(msg, string(buf))
+		msg = trimPrefixAndColon(msg, string(buf))
 	}
 	if errorCode != "" {
 		buf = buf[:0]
 		buf = appendErrorCodePrefix(buf, errorCode)
-		buf = append(buf, ": "...)
-		msg = strings.TrimPrefix(msg, string(buf))
+		msg = trimPrefixAndColon(msg, string(buf))
 	}
 	return msg
+}
+
+// trimPrefixAndColon removes prefix followed by ": " from msg.
+// When the original message was empty, the prefix is all there is.
+func trimPrefixAndColon(msg, prefix string) string {
+	if msg == prefix {
+		return ""
+	}
+	return strings.TrimPrefix(msg, prefix+": ")
 }
 
 // The following values represent the known error codes.
